@@ -532,8 +532,13 @@ static void Table_Rem(var self, var key) {
 static var Table_Get(var self, var key) {
   struct Table* t = self;
   
+  /* a key object handed out by iteration: its slot is known. Any other
+  ** object inside the slot array (a value) is looked up like any key. */
   if (key >= t->data and ((char*)key) < ((char*)t->data) + t->nslots * Table_Step(self)) {
-    return Table_Val(self, (((char*)key) - ((char*)t->data)) / Table_Step(self));
+    size_t slot = (((char*)key) - ((char*)t->data)) / Table_Step(self);
+    if (key is Table_Key(t, slot) and Table_Key_Hash(t, slot) isnt 0) {
+      return Table_Val(self, slot);
+    }
   }
   
   key = cast(key, t->ktype);
